@@ -36,3 +36,16 @@ mutant("c10-de-order", "C10", "R10.2/integrate::integrate_core/de-consumption", 
 mutant("c10-de-entry", "C10", "R10.4-formula", (T, "(0.5 * 0.018343166989927842087, 0.99751485645722438683)", "(0.5 * 0.018343166989927842087, 0.99751485645772438683)"))
 benign("c10-consumer-refactor", "C10", (G, "            .map(|(z, w)| N::from_f64(*w).unwrap() * f(N::from_f64(*z).unwrap().real()))\n            .fold(N::zero(), |sum, x| sum + x);",
                                         "            .map(|(z, w)| { let node = N::from_f64(*z).unwrap().real(); f(node) * N::from_f64(*w).unwrap() })\n            .fold(N::zero(), |acc, term| term + acc);"))
+
+RK, AD, BD, IV = "src/ivp/rk.rs", "src/ivp/adams.rs", "src/ivp/bdf.rs", "src/ivp.rs"
+mutant("c06-zero-accepted", "C06", "R6.1/RungeKutta::with_tolerance/reject", (RK, "if tol <= <Self::RealField as Zero>::zero() {", "if tol < <Self::RealField as Zero>::zero() {"))
+mutant("c06-wrong-variant", "C06", "R6.1/Adams::with_maximum_dt/reject", (AD, "        if max <= <Self::RealField as Zero>::zero() {\n            return Err(IVPError::TimeDeltaOOB);", "        if max <= <Self::RealField as Zero>::zero() {\n            return Err(IVPError::ToleranceOOB);"))
+mutant("c06-min-max", "C06", "R6.2/BDF::with_maximum_dt", (BD, "if *dt_min > max {", "if *dt_min < max {"))
+mutant("c06-missing-param", "C06", "R6.3/RungeKutta::solve/field:init_tolerance", (RK, "let tolerance = self.init_tolerance.ok_or(IVPError::MissingParameters)?;", "let tolerance = self.init_tolerance.unwrap_or_else(Self::RealField::one);"))
+mutant("c06-drop-user-error", "C06", "R6.5/", (AD, "            &mut self.data.clone(),\n        )?;\n        self.scratch_pad = &self.implicit_derivs", "            &mut self.data.clone(),\n        ).unwrap_or_else(|_| self.scratch_pad.clone());\n        self.scratch_pad = &self.implicit_derivs"))
+mutant("c06-iter-redo-break", "C06", "R6.6/IVPIterator::next/arm", (IV, "Err(IE::Redo) => continue,", "Err(IE::Redo) => break None,"))
+mutant("c06-iter-not-fused", "C06", "R6.6/IVPIterator::next/failure-sets-finished", (IV, "                    self.finished = true;\n", ""))
+mutant("c06-dim-swap", "C06", "R6.4/RungeKutta::new_dyn", (RK, "dim: D::dim_dyn(size)?,", "dim: D::dim()?,"))
+mutant("c06-end-guard", "C06", "R6.1/Euler::with_ending_time", (IV, "            if *initial >= ending {\n                return Err(IVPError::TimeEndOOB);", "            if *initial > ending {\n                return Err(IVPError::TimeEndOOB);"))
+benign("c06-guard-rewrite", "C06", (RK, "if tol <= <Self::RealField as Zero>::zero() {", "if !(tol > <Self::RealField as Zero>::zero()) {"))
+benign("c06-iter-rewrite", "C06", (IV, "                Err(IE::Done) => break None,\n                Err(IE::Redo) => continue,", "                Err(IE::Redo) => continue,\n                Err(IE::Done) => break None,"))
